@@ -747,7 +747,7 @@ META = {
              'complement table; count tags sum exactly the letters of their class and the call string has one symbol per aligned pair; calls use the dove-safe '
              'consensus whose window is [left start + d, right end - d - 1] inclusive in both orientations with filter start <= pos <= end, restricted to the '
              'convertible reference base, built from the tie-free consensus (C13-R1). Does NOT decide calls against a simulated methylome.'),
-    'technique': 'static analysis: constant folding of the context / complement tables, path enumeration of the polarity table, linear forms of context and dove-safe windows, tag wiring set comparison; small-scope abstract execution of position_to_context against a model reference, of the window filter of read_to_consensus_dict, and of every class that stands in for the reference handle',
+    'technique': 'static analysis: constant folding of the context / complement tables, path enumeration of the polarity table, linear forms of context and dove-safe windows, tag wiring set comparison; small-scope abstract execution of position_to_context against a model reference, of the window filter of read_to_consensus_dict, and of every class that stands in for the reference handle, and of the dove-safe window on model mate pairs',
     'design_ref': 'DESIGN.md section 5, C14',
 }
 
